@@ -613,7 +613,7 @@ func bytesToStr(x []value) value {
 			}
 			b[k] = e.t
 		default:
-			panic(fmt.Sprintf("bytesToStr: element %T", e))
+			unsupported("byte-level access to an opaque value (%T), e.g. a marshalled protobuf buffer", e)
 		}
 	}
 	return mkStr(string(bs), b)
